@@ -9,7 +9,8 @@ membership; relative 1e-9 (plus a conditioning-scaled absolute term) for floatin
 an exact-rational reference.
 
 Sub-monitors (./check C10 --only a,b): count cdist csim uniq stats1 stats1rx (regex field selection) stats1w (-w / -s)
-merge step top fraction histogram freq filldown dsl (stats functions) pgrid (full percentile grid) slwin (window grid)
+merge step top fraction histogram freq filldown dsl (stats functions) pgrid (full percentile grid) proutes (the non-interpolated
+index rule through stats1 -s / -w, merge-fields, percentile(), median(), percentiles() oa/ais) slwin (window grid) nulljson
 collide (group keys containing the key joiner) docex (examples in `mlr help function`) docreplay (reference-verbs.md)."""
 import hashlib
 import json
@@ -56,6 +57,9 @@ def E(x):
 
 
 ANY = ("A",)
+# The exact value is outside the model (undocumented or ill-defined: no data, 0/0, x/0, arithmetic on text, ints beyond 2^53 in
+# float moments), but the cell must still be a number (NaN/Inf included), empty, or Miller's error value - never other text.
+WEAK = ("W",)
 
 
 def ONEOF(texts):
@@ -81,6 +85,11 @@ def cell_ok(exp, got):
         return None
     if k == "T":
         return got == exp[1]
+    if k == "W":
+        return got in ("", "(error)") or _to_float(got) is not None
+    if k == "ALT":
+        rs = [cell_ok(x, got) for x in exp[1]]
+        return True if any(r is True for r in rs) else (None if any(r is None for r in rs) else False)
     if k == "O":
         return got in exp[1]
     if k == "I":
@@ -105,6 +114,10 @@ def exp_repr(exp):
     k = exp[0]
     if k == "A":
         return "<declined>"
+    if k == "W":
+        return "<a number, empty or (error)>"
+    if k == "ALT":
+        return " or ".join(exp_repr(x) for x in exp[1])
     if k == "T":
         return exp[1]
     if k == "O":
@@ -116,11 +129,15 @@ def exp_repr(exp):
     return f"{exp[1]!r} (+-1e-9 rel)"
 
 
-def compare(res, verb, detail, got, exp, sig_extra=None, cell_class=None, what_prefix="", loose_order=False):
+def compare(res, verb, detail, got, exp, sig_extra=None, cell_class=None, what_prefix="", loose_order=False, rec_sig=None):
     """got: list of records (list of (k, text)); exp: list of records (list of (k, Exp)).
     cell_class(key) -> short class name used in the violation signature (accumulator, stepper ...).
     loose_order: the order of fields inside a record is not part of the property (only used where the
-    documentation does not fix it); field names must be unique then."""
+    documentation does not fix it); field names must be unique then.
+    rec_sig(record_index, key or None) -> dict merged into the signature of a violation found at that record / cell
+    (properties of the WITNESS, e.g. whether the failing record's own group has a gap) - known findings are matched on it.
+    Every record and every cell is judged: a mismatch does not end the comparison (so that nothing hides behind a known
+    finding); one violation is recorded per distinct signature and compare call."""
     sig_extra = sig_extra or {}
     nchecked = 0
     if len(got) != len(exp):
@@ -128,6 +145,16 @@ def compare(res, verb, detail, got, exp, sig_extra=None, cell_class=None, what_p
                       f"{what_prefix}{verb}: {len(got)} output records, {len(exp)} expected from recomputation",
                       dict(detail, expected=[[(k, exp_repr(e)) for k, e in r] for r in exp][:40], got=got[:40]))
         return 0
+    seen = set()
+
+    def report(sig, what, det):
+        key = json.dumps(sig, sort_keys=True, default=str)
+        if key in seen:
+            bump(res, "further_mismatches_same_signature")
+            return
+        seen.add(key)
+        add_violation(res, sig, what, det)
+
     for ri, (g, e) in enumerate(zip(got, exp)):
         gk = [k for k, _ in g]
         ek = [k for k, _ in e]
@@ -137,23 +164,33 @@ def compare(res, verb, detail, got, exp, sig_extra=None, cell_class=None, what_p
             g = [(k, gd[k]) for k in ek]
             gk = ek
         if gk != ek:
-            add_violation(res, dict({"verb": verb, "kind": "keys"}, **sig_extra),
-                          f"{what_prefix}{verb}: output record {ri+1} has fields {gk}, expected {ek}",
-                          dict(detail, record_index=ri, expected=[(k, exp_repr(x)) for k, x in e], got=g))
-            return nchecked
-        for (k, gv), (_, ev) in zip(g, e):
+            sig = dict({"verb": verb, "kind": "keys"}, **sig_extra)
+            if rec_sig:
+                sig.update(rec_sig(ri, None))
+            report(sig, f"{what_prefix}{verb}: output record {ri+1} has fields {gk}, expected {ek}",
+                   dict(detail, record_index=ri, expected=[(k, exp_repr(x)) for k, x in e], got=g))
+            # still judge the cells both sides have (first occurrence of each name)
+            gd = {}
+            for k, v in g:
+                gd.setdefault(k, v)
+            pairs = [((k, gd[k]), (k, ev)) for k, ev in e if k in gd]
+        else:
+            pairs = list(zip(g, e))
+        for (k, gv), (_, ev) in pairs:
             ok = cell_ok(ev, gv)
             if ok is None:
                 bump(res, "cells_declined")
                 continue
             nchecked += 1
+            if ev[0] == "W":
+                bump(res, "cells_checked_weakly")
             if not ok:
                 cls = cell_class(k) if cell_class else k
-                add_violation(res, dict({"verb": verb, "kind": "value", "cell": cls}, **sig_extra),
-                              f"{what_prefix}{verb}: record {ri+1} field {k}: got {gv!r}, recomputed {exp_repr(ev)}",
-                              dict(detail, record_index=ri, field=k, expected=exp_repr(ev), got=gv,
-                                   got_record=g))
-                return nchecked
+                sig = dict({"verb": verb, "kind": "value", "cell": cls}, **sig_extra)
+                if rec_sig:
+                    sig.update(rec_sig(ri, k))
+                report(sig, f"{what_prefix}{verb}: record {ri+1} field {k}: got {gv!r}, recomputed {exp_repr(ev)}",
+                       dict(detail, record_index=ri, field=k, expected=exp_repr(ev), got=gv, got_record=g))
     bump(res, "cells_checked", nchecked)
     return nchecked
 
@@ -192,6 +229,14 @@ def gen_value(rng, profile):
         return gen_int(rng, big=True)
     if profile == "float":
         return gen_float(rng)
+    if profile == "spfloat":
+        # the float spellings beyond fixed-point: exponent, leading / trailing decimal point
+        r = rng.random()
+        if r < 0.45:
+            return gen_float(rng)
+        if r < 0.6:
+            return gen_int(rng)
+        return rng.choice(["5.", ".5", "-.5", "1e3", "1.5E-2", "2.5e1", "-3.e0", "12.", "1e0", "25e-1", ".25", "4.0e+1", "-7.5E1"])
     if profile == "posfloat":
         return f"{rng.uniform(0.1, 50):.{rng.choice([1, 2, 3])}f}"
     if profile == "mixed":
@@ -212,15 +257,25 @@ def gen_value(rng, profile):
     raise AssertionError(profile)
 
 
-def make_stream(rng, n, profiles, na=None, nb=None, missing=0.2, extra=False):
-    """profiles: dict field -> profile.  Fields: id, a, b, then value fields in dict order."""
+WIDE = [(f"w{j:02d}", str(j)) for j in range(1, 13)]
+
+
+def make_stream(rng, n, profiles, na=None, nb=None, missing=0.2, extra=False, wide=None):
+    """profiles: dict field -> profile.  Fields: id, a, b, then value fields in dict order.
+    wide: 12 constant filler fields w01..w12 (right after id, or at the end) so that records reach the width at which
+    Miller switches to indexed field lookup (>= 12 fields); None = in 12 % of the streams."""
     na = na if na is not None else rng.randint(1, 14)
     nb = nb if nb is not None else rng.randint(1, 4)
     apool = rng.sample(A_POOL, na)
     bpool = rng.sample(B_POOL, nb)
+    if wide is None:
+        wide = rng.random() < 0.12
+    wide_front = rng.random() < 0.5
     recs = []
     for i in range(n):
         rec = [("id", f"r{i+1}")]
+        if wide and wide_front:
+            rec += WIDE
         if rng.random() >= missing:
             rec.append(("a", rng.choice(apool)))
         if rng.random() >= missing:
@@ -230,13 +285,17 @@ def make_stream(rng, n, profiles, na=None, nb=None, missing=0.2, extra=False):
                 rec.append((f, gen_value(rng, prof)))
         if extra and rng.random() < 0.2:
             rec.append((rng.choice(["p", "q"]), rng.choice(["u", "3"])))
+        if wide and not wide_front:
+            rec += WIDE
         recs.append(rec)
     return recs
 
 
 def pick_n(rng, tier):
     r = rng.random()
-    if r < 0.04:
+    if r < 0.03:
+        return rng.choice([499, 500, 501, 502, 1003])      # around / beyond the 500-record batch
+    if r < 0.06:
         return 0
     if r < 0.10:
         return rng.randint(1, 3)
@@ -296,6 +355,15 @@ def run_mlr(res, argv, recs, verb, stdin_text=None):
     """Runs mlr on the DKVP stream; returns (parsed output records, detail) or (None, detail) after
     recording inconclusive / failure."""
     stdin = gen.dkvp(recs) if stdin_text is None else stdin_text
+    # Reader batch size: a pure function of the case (hash of command and input).  A third of the runs use a small batch so
+    # that groups, windows and end-of-stream flushes span many batches; the default (500) is crossed by the 499..1003 streams.
+    if argv and not argv[0].startswith("-"):
+        base = argv[:-3] if list(argv[-3:]) == TYPEOF_PUT else argv      # the typeof re-run uses the same batch size
+        hb = int(hashlib.sha1(repr((list(base), len(stdin), stdin[:200])).encode()).hexdigest()[:8], 16)
+        b = [None, None, None, None, None, 1, 2, 7, 100][hb % 9]
+        if b is not None:
+            argv = ["--records-per-batch", str(b)] + list(argv)
+            bump(res, "runs_with_small_batches")
     r = R.mlr(argv, stdin=stdin)
     detail = {"argv": argv, "stdin": stdin}
     bump(res, "runs")
@@ -317,31 +385,54 @@ def run_mlr(res, argv, recs, verb, stdin_text=None):
     return gen.parse_dkvp(r.out), detail
 
 
-TYPEOF_PUT = ["then", "put", "for (k,v in $*) { $[k] = typeof(v) }"]
+TYPEOF_PUT = ["then", "put", 'for (k,v in $*) { if (k != "id") { $[k] = typeof(v) } }']
 
 
-def check_int_types(res, verb, argv, recs, exp, sig_extra, by_id=False):
+def check_int_types(res, verb, argv, recs, exp, sig_extra, by_id=False, rows=None, stdin_text=None):
     """'sums/min/max of ints stay ints': every cell whose recomputed value is an exact integer (counts, int sums,
-    int min/max, counters ...) must still be of type int inside the chain - observed with typeof() in a following put
-    (the printed text cannot tell int 6 from float 6)."""
+    int min/max, counters, ranks ...) must still be of type int inside the chain - observed with typeof() in a following put
+    (the printed text cannot tell int 6 from float 6).  A second run of the same command, so that the values themselves are
+    judged on the untouched output.  Alignment with the expected rows: by the record's id field (by_id), by the indices `rows`
+    of the raw output records that the value comparison used, or one to one."""
     if not any(e[0] == "I" for r in exp for _, e in r):
         return
-    got, detail = run_mlr(res, argv + TYPEOF_PUT, recs, verb)
-    if got is None or len(got) != len(exp):
+    got, detail = run_mlr(res, argv + TYPEOF_PUT, recs, verb, stdin_text=stdin_text)
+    if got is None:
         return
     if by_id:
-        return
-    for ri, (g, e) in enumerate(zip(got, exp)):
+        m = {}
+        for g in got:
+            i = dict(g).get("id")
+            if i is not None:
+                m[i] = g
+        pairs = []
+        for e in exp:
+            i = next((ev[1] for k, ev in e if k == "id" and ev[0] == "T"), None)
+            if i in m:
+                pairs.append((m[i], e))
+    elif rows is not None:
+        if any(i >= len(got) for i in rows) or len(rows) != len(exp):
+            return
+        pairs = [(got[i], e) for i, e in zip(rows, exp)]
+    else:
+        if len(got) != len(exp):
+            return
+        pairs = list(zip(got, exp))
+    seen = set()
+    for ri, (g, e) in enumerate(pairs):
         gd = dict(g)
         for k, ev in e:
             if ev[0] != "I" or k not in gd:
                 continue
             bump(res, "int_type_cells_checked")
             if gd[k] != "int":
-                add_violation(res, dict({"verb": verb, "kind": "type", "cell": k.split("_", 1)[-1]}, **(sig_extra or {})),
+                cell = k.split("_", 1)[-1]
+                if cell in seen:
+                    continue
+                seen.add(cell)
+                add_violation(res, dict({"verb": verb, "kind": "type", "cell": cell}, **(sig_extra or {})),
                               f"{verb}: record {ri+1} field {k} is an exact integer ({ev[1]}) by recomputation but typeof gives {gd[k]}",
                               dict(detail, record_index=ri, field=k, got_types=g))
-                return
 
 
 def group_sizes(recs, gfields):
@@ -386,6 +477,7 @@ def count_case(case):
     else:
         exp = [[(f, T(v)) for f, v in zip(gf, k)] + [(oname, I(len(rs)))] for k, rs in groups.items()]
     compare(res, "count", detail, got, exp, {"opts": "-n" if nflag else ("-g" if gf else "")}, lambda k: "count" if k == oname else "group-field")
+    check_int_types(res, "count", argv, recs, [[(k, e) for k, e in r if e[0] == "I"] for r in exp], {"opts": "-n" if nflag else ("-g" if gf else "")})
     res["sample"] = {"monitor": "count", "argv": argv, "n_records": n, "groups": len(groups)}
     return res
 
@@ -393,7 +485,7 @@ def count_case(case):
 def cdist_case(case):
     rng = random.Random(case["seed"])
     n = pick_n(rng, case["tier"])
-    recs = make_stream(rng, n, {"x": "int"}, extra=True)
+    recs = make_stream(rng, n, {"x": "int"}, extra=True, wide=False)
     gf = pick_gfields(rng, allow_empty=False)
     mode = rng.choice(["plain", "plain", "-n", "-u", "-x"])
     oname = rng.choice(["count", "count", "N"])
@@ -437,6 +529,7 @@ def cdist_case(case):
     if mode == "-x" and len({",".join(v for _, v in k) for k in groups}) < len(groups):
         sig["cond"] = "same-values-different-field-names"
     compare(res, "count-distinct", detail, got, exp, sig, lambda k: "count" if k in (oname, "count") else "group-field")
+    check_int_types(res, "count-distinct", argv, recs, [[(k, e) for k, e in r if e[0] == "I"] for r in exp], sig)
     res["sample"] = {"monitor": "cdist", "argv": argv, "n_records": n}
     return res
 
@@ -470,6 +563,7 @@ def csim_case(case):
         for r in rs:
             exp.append([(f, T(v)) for f, v in r] + [(oname, I(len(rs)))])
     compare(res, "count-similar", detail, got2, exp, {}, lambda k: "count" if k == oname else "passthrough")
+    check_int_types(res, "count-similar", argv, recs, [[(k, e) for k, e in r if k == "id" or k == oname] for r in exp], {}, by_id=True)
     res["sample"] = {"monitor": "csim", "argv": argv, "n_records": n, "groups": len(groups)}
     return res
 
@@ -482,7 +576,7 @@ def uniq_case(case):
     res = case_result(_h("uniq", case["seed"]), False)
     if mode.startswith("-a"):
         # whole-record uniqueness: few distinct records so that repeats happen
-        recs0 = make_stream(rng, max(1, n // 3), {"x": "int"}, na=3, nb=2)
+        recs0 = make_stream(rng, max(1, n // 3), {"x": "int"}, na=3, nb=2, wide=False)
         base = [[kv for kv in r if kv[0] != "id"] for r in recs0]
         base = [b for b in base if b] or [[("a", "pan")]]
         recs = [list(rng.choice(base)) for _ in range(n)]
@@ -510,9 +604,10 @@ def uniq_case(case):
         if "-c" in mode and oname != "count" and got and got[0] and got[0][0][0] == oname:
             exp = [[(oname, r[0][1])] + r[1:] for r in exp]
         compare(res, "uniq", detail, got, exp, sig_a, lambda k: "count" if k in ("count", oname) else "field")
+        check_int_types(res, "uniq", argv, recs, [[(k, e) for k, e in r if e[0] == "I"] for r in exp], sig_a)
         res["sample"] = {"monitor": "uniq", "argv": argv, "n_records": n, "distinct": len(groups)}
         return res
-    recs = make_stream(rng, n, {"x": "int"}, extra=True)
+    recs = make_stream(rng, n, {"x": "int"}, extra=True, wide=False)
     if mode.startswith("-x"):
         xf = rng.choice([["id", "x"], ["id", "x", "p", "q"], ["id", "x", "b"]])
         argv = ["uniq", "-x", ",".join(xf)] + mode.split()[1:]
@@ -546,6 +641,7 @@ def uniq_case(case):
     if mode.startswith("-x") and len({",".join(v for _, v in k) for k in groups}) < len(groups):
         sig["cond"] = "same-values-different-field-names"
     compare(res, "uniq", detail, got, exp, sig, lambda k: "count" if k in ("count", oname) else "field")
+    check_int_types(res, "uniq", argv, recs, [[(k, e) for k, e in r if e[0] == "I"] for r in exp], sig)
     res["sample"] = {"monitor": "uniq", "argv": argv, "n_records": n, "distinct": len(groups)}
     return res
 
@@ -594,7 +690,7 @@ def acc_expect(acc, texts, nulls, interp, empties_seen=True):
     if acc == "distinct_count":
         return I(len(set(texts)))
     if n == 0:
-        return ANY        # value of an accumulator over no data is not documented (empty in practice)
+        return WEAK       # value of an accumulator over no data is not documented
     if acc == "mode":
         return T(S.first_mode(texts))
     if acc == "antimode":
@@ -622,14 +718,12 @@ def acc_expect(acc, texts, nulls, interp, empties_seen=True):
             if not all_num:
                 return ANY        # "Not sensical for string-valued fields"
             if any(x.kind == "int" and abs(x.i) > 2 ** 53 for x in nums):
-                return ANY        # interpolation between ints beyond 2^53: int64 overflow territory (C07), outside this model
+                return WEAK       # interpolation between ints beyond 2^53: int64 overflow territory (C07), outside this model
             srt = sorted(x.exact for x in nums)
             v = S.pct_interp(p, srt)
             return N(v, float(max(abs(srt[0]), abs(srt[-1]))))
         srt = S.sort_texts(texts)
-        idxs = {S.pct_index(p, n)}
-        alt = int(float(p) * n / 100.0)
-        idxs.add(min(max(alt, 0), n - 1))
+        idxs = S.pct_index_set("50" if acc == "median" else acc[1:], n)
         cands = set()
         for i in idxs:
             k = S.collation_key(srt[i])
@@ -637,7 +731,7 @@ def acc_expect(acc, texts, nulls, interp, empties_seen=True):
         return ONEOF(sorted(cands))
     # numeric accumulators: "the rest require numeric input"
     if not all_num:
-        return ANY
+        return WEAK
     if acc == "sum":
         if all(x.kind == "int" for x in nums):
             s = int_sum(nums)
@@ -645,13 +739,13 @@ def acc_expect(acc, texts, nulls, interp, empties_seen=True):
             return I(s) if isinstance(s, int) else N(s, float(sum(abs(x.i) for x in nums)))
         return N(sum((x.exact for x in nums), Fraction(0)), float(sum(abs(x.exact) for x in nums)))
     if any(x.kind == "int" and abs(x.i) > 2 ** 53 for x in nums):
-        return ANY        # moments of ints beyond 2^53 go through float conversion: outside the model
+        return WEAK       # moments of ints beyond 2^53 go through float conversion: outside the model
     xs = [x.exact for x in nums]
     mom = S.moments(xs)
     if acc in mom:
         v, scale = mom[acc]
         if v is None or scale is None:
-            return ANY    # zero variance: 0/0
+            return WEAK   # zero variance: 0/0
         if v == "":
             return T("")
         return N(v, scale)
@@ -706,7 +800,7 @@ def stats1_model(recs, accs, vfields, gfields, interp):
 def stats1_case(case):
     rng = random.Random(case["seed"])
     n = pick_n(rng, case["tier"])
-    prof = rng.choice(["int", "bigint", "float", "mixed", "mixed", "mixed_empty", "mixed_empty", "text", "hexint"])
+    prof = rng.choice(["int", "bigint", "float", "mixed", "mixed", "mixed_empty", "mixed_empty", "text", "hexint", "spfloat"])
     profiles = {"x": prof, "y": rng.choice(["float", "mixed", "int"])}
     recs = make_stream(rng, n, profiles, extra=rng.random() < 0.3)
     gf = pick_gfields(rng)
@@ -745,7 +839,7 @@ def stats1_case(case):
                 add_violation(res, {"verb": "stats1", "kind": "conservation"},
                               f"stats1: {f}_count over all groups sums to {tot}, {contributing} records contribute",
                               detail)
-    if nck and rng.random() < 0.35:
+    if nck:
         check_int_types(res, "stats1", argv, recs, exp, {"interp": interp})
     res["stats"]["accs_seen"] = [acc_class(a) for a in accs]
     res["sample"] = {"monitor": "stats1", "argv": argv, "n_records": n, "groups": len(groups), "profile": prof}
@@ -757,7 +851,7 @@ def stats1_regex_case(case):
     rng = random.Random(case["seed"])
     n = pick_n(rng, case["tier"])
     profiles = {"x": rng.choice(["int", "mixed"]), "y": "float", "x2": "int"}
-    recs = make_stream(rng, n, profiles)
+    recs = make_stream(rng, n, profiles, wide=False)      # --fx/--gx select by exclusion: the field set is kept closed
     if rng.random() < 0.6:
         # every record has both group-by fields, non-empty: the regex-selected group-by names are the same everywhere
         recs = [[(k, v) for k, v in r if k not in ("a", "b")] for r in recs]
@@ -866,14 +960,16 @@ def stats1w_case(case):
     """stats1 -w n (sliding window over the last n records of the group) and -s (running stats)."""
     rng = random.Random(case["seed"])
     tier = case["tier"]
-    n = min(pick_n(rng, tier), 80)
-    prof = rng.choice(["int", "float", "mixed", "mixed_empty"])
+    n0 = pick_n(rng, tier)
+    iterative = rng.random() < 0.25
+    # sliding windows also across the 500-record batch; the running form is recomputed in O(n^2) and stays capped
+    n = n0 if (n0 >= 499 and not iterative) else min(n0, 80)
+    prof = rng.choice(["int", "float", "mixed", "mixed_empty", "spfloat"])
     recs = make_stream(rng, n, {"x": prof, "y": "int"})
     gf = pick_gfields(rng)
     vf = rng.choice([["x"], ["x", "y"]])
     accs = pick_accs(rng, prof, k=rng.randint(1, 4))
     interp = rng.random() < 0.25
-    iterative = rng.random() < 0.25
     w = case.get("w") or rng.randint(1, 12)
     argv = ["stats1", "-a", ",".join(accs), "-f", ",".join(vf)] + (["-g", ",".join(gf)] if gf else []) + (["-i"] if interp else [])
     argv += ["-s"] if iterative else ["-w", str(w)]
@@ -883,6 +979,15 @@ def stats1w_case(case):
         return res
     summary = [g for g in got if "id" not in dict(g)]
     got = [g for g in got if "id" in dict(g)]
+    if not iterative:
+        # -w: "One output record is emitted per input record, with the windowed statistics appended to it" - a record that lacks
+        # a group-by field belongs to no window, but it is still an input record (it must come out, unchanged: checked below)
+        gotids = {dict(g)["id"] for g in got}
+        dropped = [dict(r)["id"] for r in recs if gkey(r, gf) is None and dict(r)["id"] not in gotids]
+        if dropped:
+            add_violation(res, {"verb": "stats1", "kind": "records-dropped", "opts": "-w", "witness": "record-lacking-group-by-field"},
+                          f"stats1 -w -g {','.join(gf)}: {len(dropped)} input records lacking a group-by field are not emitted (e.g. {dropped[:4]}); "
+                          f"the help promises one output record per input record", dict(detail, dropped=dropped))
     got = _strip_lacking(res, "stats1", detail, got, recs, gf)
     hist = {}
     exp = []
@@ -915,6 +1020,8 @@ def stats1w_case(case):
         got2.append([(k, v) for k, v in g if k in keep or k in orig])
     compare(res, "stats1", detail, got2, exp, {"opts": "-s" if iterative else "-w", "interp": interp},
             lambda k: acc_class(k.split("_", 1)[1]) if "_" in k else "passthrough", loose_order=True)
+    check_int_types(res, "stats1", argv, recs, [[(k, e) for k, e in r if k == "id" or re.match(r"[xy]_", k)] for r in exp],
+                    {"opts": "-s" if iterative else "-w", "interp": interp}, by_id=True)
     if summary and iterative:
         e2, _ = stats1_model(recs, accs, vf, gf, interp)
         compare(res, "stats1", detail, summary, e2, {"opts": "-s-final", "interp": interp},
@@ -930,7 +1037,7 @@ def stats1w_case(case):
 def merge_case(case):
     rng = random.Random(case["seed"])
     n = min(pick_n(rng, case["tier"]), 60)
-    prof = rng.choice(["int", "bigint", "float", "mixed", "mixed_empty", "mixed_empty", "text", "hexint"])
+    prof = rng.choice(["int", "bigint", "float", "mixed", "mixed_empty", "mixed_empty", "text", "hexint", "spfloat"])
     names = ["a_in", "a_out", "b_in", "b_out", "c_in", "a_mid"]
     recs = []
     for i in range(n):
@@ -1003,6 +1110,13 @@ def merge_case(case):
                     # first-found wins ties; "first" in -f order or in record order is not documented
                     alt = [dict(r)[k] for k in sel if k in dict(r) and dict(r)[k] != ""]
                     e = ONEOF({e[1], S.first_mode(alt, anti=(a == "antimode"))})
+                if a == "sum" and form == "-f":
+                    # an int sum leaves int64 (and turns float for good) or not depending on the order of addition; whether the
+                    # fields are added in record order or in -f order is not documented
+                    alt = [dict(r)[k] for k in sel if k in dict(r) and dict(r)[k] != ""]
+                    e2 = acc_expect(a, alt, nulls, interp)
+                    if e2 != e:
+                        e = ("ALT", [e, e2])
                 out.append((f"{b}_{a}", e))
         exp.append(out)
     res["nontrivial"] = multi >= 2 and len({tuple(k for k, _ in r) for r in recs}) >= 2
@@ -1010,10 +1124,10 @@ def merge_case(case):
     nck = compare(res, "merge-fields", detail, got, exp, sig,
                   lambda k: acc_class(k.split("_", 1)[1]) if re.match(r"(out|ab|a|b|c)_", k) and k not in names else "passthrough",
                   loose_order=False)
-    if nck and rng.random() < 0.3:
+    if nck:
         # only the computed cells: pass-through fields are typed by inference, which is not this property
-        exp_t = [[(k, e) for k, e in r if re.match(r"(out|ab|a|b|c)_", k) and k not in names] for r in exp]
-        check_int_types(res, "merge-fields", argv, recs, exp_t, sig)
+        exp_t = [[(k, e) for k, e in r if k == "id" or (re.match(r"(out|ab|a|b|c)_", k) and k not in names)] for r in exp]
+        check_int_types(res, "merge-fields", argv, recs, exp_t, sig, by_id=True)
     res["stats"]["accs_seen"] = [acc_class(a) for a in accs]
     res["sample"] = {"monitor": "merge", "argv": argv, "n_records": n, "profile": prof}
     return res
@@ -1038,8 +1152,9 @@ def _sub_expect(a, b):
 
 def step_case(case):
     rng = random.Random(case["seed"])
-    n = min(pick_n(rng, case["tier"]), 120)
-    prof = rng.choice(["int", "int", "float", "mixed", "posfloat"])
+    n = pick_n(rng, case["tier"])
+    n = n if n >= 499 else min(n, 120)
+    prof = rng.choice(["int", "int", "float", "mixed", "posfloat", "spfloat"])
     missing = rng.choice([0.0, 0.0, 0.2, 0.2, 0.35])
     recs = make_stream(rng, n, {"x": prof, "y": rng.choice(["int", "float"])}, missing=missing, na=rng.randint(1, 6))
     gf = pick_gfields(rng)
@@ -1140,7 +1255,7 @@ def step_case(case):
                             try:
                                 e = N(float(exact_prod[i]), 0.0)
                             except OverflowError:
-                                e = ANY
+                                e = WEAK
                     elif base == "from-first":
                         e = _sub_expect(x, nums[P[0]])
                     elif base == "ewma":
@@ -1148,46 +1263,34 @@ def step_case(case):
                             nm = f"{f}_ewma_{suffixes[ai] if suffixes else al}"
                             cells[i].append((nm, N(ew[i][ai], maxabs)))
                         continue
-                    elif base in ("shift", "shift_lag"):
-                        j = i - cnt
-                        if j < 0:
-                            e = T("")
-                        elif all(have[j:i]):
-                            e = T(D[j][f])
-                        elif cnt == 1:
-                            e = T("")        # "from the previous record, if any": the previous record has no such field
+                    elif base in ("shift", "shift_lag", "shift_lead", "delta", "ratio"):
+                        # "n records back/forward", "the previous record, if any": the help does not say whether records of
+                        # the group that lack the field count as positions.  Reading A: they do (record i-n of the group,
+                        # literally); reading B: they do not (the n-th previous record that has the field).  Where both
+                        # readings name the same record the cell is judged strictly; where they differ, shift must be one
+                        # of the two and delta/ratio (whose no-predecessor value 0 / 1 is only pinned for "no record") are declined.
+                        step_ = cnt if base == "shift_lead" else -cnt
+                        ja = i + step_
+                        ja = ja if 0 <= ja < len(G) else None
+                        pb = pos[i] + step_
+                        jb = P[pb] if 0 <= pb < len(P) else None
+                        agree = (ja == jb) or (ja is None and jb is None)
+                        if not agree:
+                            bump(res, "step_cells_where_readings_differ")
+                            if base in ("delta", "ratio"):
+                                e = WEAK
+                            else:
+                                va = D[ja][f] if ja is not None and have[ja] else ""
+                                vb = D[jb][f] if jb is not None else ""
+                                e = T(va) if va == vb else ONEOF([va, vb])
+                        elif ja is None:
+                            e = T("") if base.startswith("shift") else (I(0) if base == "delta" else I(1))
+                        elif base.startswith("shift"):
+                            e = T(D[ja][f])
+                        elif base == "delta":
+                            e = _sub_expect(x, nums[ja])
                         else:
-                            e = ANY
-                    elif base == "shift_lead":
-                        j = i + cnt
-                        if j >= len(G):
-                            e = T("")
-                        elif all(have[i + 1:j + 1]):
-                            e = T(D[j][f])
-                        elif cnt == 1:
-                            e = T("")
-                        else:
-                            e = ANY
-                    elif base == "delta":
-                        j = i - cnt
-                        if j < 0:
-                            e = I(0)
-                        elif all(have[j:i]):
-                            e = _sub_expect(x, nums[j])
-                        elif cnt == 1:
-                            e = I(0)
-                        else:
-                            e = ANY
-                    elif base == "ratio":
-                        j = i - cnt
-                        if j < 0:
-                            e = I(1)
-                        elif all(have[j:i]):
-                            e = ANY if nums[j].exact == 0 else N(x.exact / nums[j].exact, 0.0)
-                        elif cnt == 1:
-                            e = I(1)
-                        else:
-                            e = ANY
+                            e = WEAK if nums[ja].exact == 0 else N(x.exact / nums[ja].exact, 0.0)
                     elif base.startswith("slwin_"):
                         _, mb, mf = base.split("_")
                         lo, hi = max(0, i - int(mb)), min(len(G) - 1, i + int(mf))
@@ -1195,7 +1298,7 @@ def step_case(case):
                         if all(have[lo:hi + 1]):
                             e = N(sum(nums[j].exact for j in range(lo, hi + 1)) / (hi - lo + 1), maxabs)
                         else:
-                            e = ANY
+                            e = WEAK
                     else:
                         raise AssertionError(s_)
                     cells[i].append((name, e))
@@ -1210,36 +1313,65 @@ def step_case(case):
         m = re.match(r"slwin_[0-9]+_([0-9]+)\Z", s_)
         if m:
             maxfwd = max(maxfwd, int(m.group(1)))
-    conds = []
-    if has_fwd and any(len(G) < maxfwd for G in groups.values()):
-        conds.append("group-shorter-than-forward-window")
-    if has_fwd and gap_in_group:
-        conds.append("forward-stepper-and-record-lacking-value-field")
     if "ewma" in steppers and "-d" not in argv:
-        conds.append("ewma-without-d")
-    if conds:
-        sig["cond"] = "+".join(conds)
+        sig["cond"] = "ewma-without-d"
+    # properties of the failing record's OWN group (known findings are matched on these, never on the whole stream)
+    gap_fields = {}      # group key -> value fields that some record of the group lacks
+    for k, G in groups.items():
+        gap_fields[k] = {f for f in vf if any(f not in dict(r) for r in G)}
+    id2group = {dict(r)["id"]: k for k, G in groups.items() for r in G}
+
+    def witness(rid, key):
+        k = id2group.get(rid)
+        if k is None:
+            return {"group_gap": False, "group_short": False, "cell": "record-keys" if key is None else "passthrough"}
+        w = {"group_short": bool(has_fwd and len(groups[k]) < maxfwd)}
+        m = re.match(r"([xy])_", key or "")
+        if key is None:
+            w["group_gap"] = bool(gap_fields[k])
+            w["cell"] = "record-keys"
+        else:
+            w["group_gap"] = bool(m and m.group(1) in gap_fields[k])
+        return w
+
     if has_fwd:
         # delayed emission: order across groups is not documented -> match by id, check order inside each group
         gotids = [dict(g).get("id") for g in got]
-        if sorted(gotids) != sorted(expmap):
-            add_violation(res, dict({"verb": "step", "kind": "records-lost-or-duplicated"}, **sig),
-                          f"step: output ids differ from input ids ({len(gotids)} vs {len(expmap)})", detail)
+        unknown = [i for i in gotids if i not in expmap]
+        dup = len(set(gotids)) != len(gotids)
+        if unknown or dup:
+            add_violation(res, dict({"verb": "step", "kind": "records-duplicated-or-invented"}, **sig),
+                          f"step: output holds ids that are not in the input or are repeated ({unknown[:5]}, repeated={dup})", detail)
             return res
+        lost = [i for i in expmap if i not in set(gotids)]
+        if lost:
+            for short in (True, False):
+                ids = [i for i in lost if witness(i, None)["group_short"] == short]
+                if ids:
+                    gaps = any(witness(i, None)["group_gap"] for i in ids)
+                    add_violation(res, dict({"verb": "step", "kind": "records-lost", "group_short": short, "group_gap": gaps}, **sig),
+                                  f"step: {len(ids)} input records are missing from the output (e.g. {ids[:5]}); their groups are "
+                                  f"{'shorter' if short else 'not shorter'} than the forward window {maxfwd}", dict(detail, lost=ids))
         for k, G in groups.items():
             ids = [dict(r)["id"] for r in G]
             sub = [i for i in gotids if i in set(ids)]
-            if sub != ids:
+            if sub != [i for i in ids if i in set(gotids)]:
                 add_violation(res, dict({"verb": "step", "kind": "group-order"}, **sig),
                               f"step: records of group {k} are emitted out of input order", dict(detail, expected=ids, got=sub))
                 return res
         exp = [expmap[i] for i in gotids]
+        rids = gotids
     else:
         exp = [expmap[dict(r)["id"]] for r in recs]
-    nck = compare(res, "step", detail, got, exp, sig, lambda k: re.sub(r"^[xy]_", "", k) if re.match(r"[xy]_", k) else "passthrough")
-    if nck and not has_fwd and rng.random() < 0.3:
-        exp_t = [[(k, e) for k, e in r if re.match(r"[xy]_", k)] for r in exp]
-        check_int_types(res, "step", argv, recs, exp_t, sig)
+        rids = [dict(r)["id"] for r in recs]
+    nck = compare(res, "step", detail, got, exp, sig, lambda k: re.sub(r"^[xy]_", "", k) if re.match(r"[xy]_", k) else "passthrough",
+                  rec_sig=lambda ri, key: witness(rids[ri], key))
+    if nck:
+        exp_t = [[(k, e) for k, e in r if k == "id" or re.match(r"[xy]_", k)] for r in exp]
+        if has_fwd:
+            # in a group with a gap every stepper cell is covered by C10-F5: types are only judged in groups without one
+            exp_t = [r for r, rid in zip(exp_t, rids) if not witness(rid, None)["group_gap"]]
+        check_int_types(res, "step", argv, recs, exp_t, sig, by_id=True)
     res["stats"]["steppers_seen"] = [re.sub(r"_[0-9_]+$", "", s_) for s_ in steppers]
     res["sample"] = {"monitor": "step", "argv": argv, "n_records": len(recs), "groups": len(groups)}
     return res
@@ -1251,7 +1383,7 @@ def step_case(case):
 def top_case(case):
     rng = random.Random(case["seed"])
     n = pick_n(rng, case["tier"])
-    prof = rng.choice(["int", "float", "mixed", "mixed"])
+    prof = rng.choice(["int", "float", "mixed", "mixed", "spfloat"])
     recs = make_stream(rng, n, {"x": prof, "y": rng.choice(["int", "float"])})
     gf = pick_gfields(rng)
     showall = rng.random() < 0.3
@@ -1264,12 +1396,26 @@ def top_case(case):
         argv.append("-a")
     if oname != "top_idx":
         argv += ["-o", oname]
+    if len(vf) > 1 and rng.random() < 0.7:
+        # several -f fields: a record has all of them or none (see below for why the other streams are out of the model's domain)
+        for r in recs:
+            d = dict(r)
+            if any(f in d for f in vf) and not all(f in d for f in vf):
+                if rng.random() < 0.5:
+                    r[:] = [kv for kv in r if kv[0] not in vf]
+                else:
+                    r.extend((f, gen_value(rng, "int")) for f in vf if f not in d)
     res = case_result(_h("top", case["seed"]), nontrivial(recs, gf, vf))
     got, detail = run_mlr(res, argv, recs, "top")
     if got is None:
         return res
-    # a record takes part only if it has every -g and every -f field (pinned by the regression case
-    # `mlr top -f x,y -n 2 test/input/abixy-het`; the help text is silent); groups in order of first contribution
+    # Several -f fields and a record that has some but not all of them: neither `mlr top --help` nor reference-verbs.md says
+    # whether such a record is ranked for the fields it has (the property's "left out of that accumulation only") or not at
+    # all (what the regression corpus shows).  The documentation being silent, the oracle declines the whole case.
+    if len(vf) > 1 and any(gkey(r, gf) is not None and any(f in dict(r) for f in vf) and not all(f in dict(r) for f in vf) for r in recs):
+        res["skipped"] += 1
+        bump(res, "top_cases_declined_partial_value_fields")
+        return res
     contrib = [r for r in recs if all(f in dict(r) for f in vf)]
     groups = group_sizes(contrib, gf) if gf else ({(): contrib} if contrib else {})
     sig = {"opts": ("-a" if showall else "") + ("--min" if mn else "")}
@@ -1328,8 +1474,9 @@ def top_case(case):
         # drop undocumented padding rows (index beyond the number of values in the group) from both sides
         exp_rows = [row for gk_, i, row in exp if i < navail[gk_]]
         got_rows = []
+        kept = []
         per = {}
-        for g in got:
+        for gi, g in enumerate(got):
             d = dict(g)
             gk_ = tuple(d.get(f) for f in gf)
             per[gk_] = per.get(gk_, 0) + 1
@@ -1337,7 +1484,13 @@ def top_case(case):
                 bump(res, "padding_rows_ignored")
                 continue
             got_rows.append(g)
-        compare(res, "top", detail, got_rows, exp_rows, sig, lambda key: "top-value" if key.endswith("_top") else ("idx" if key == oname else "group-field"))
+            kept.append(gi)
+        nck = compare(res, "top", detail, got_rows, exp_rows, sig, lambda key: "top-value" if key.endswith("_top") else ("idx" if key == oname else "group-field"))
+        if nck and len(got_rows) == len(exp_rows):
+            # the rank and a top value that is an int in the data must be ints ("-F ... ignored in Miller 6")
+            exp_t = [[(k_, e) for k_, e in r if k_ == oname or (k_.endswith("_top") and e[0] == "T" and _INT_RE.match(e[1]))] for r in exp_rows]
+            exp_t = [[(k_, I(int(e[1])) if e[0] == "T" else e) for k_, e in r] for r in exp_t]
+            check_int_types(res, "top", argv, recs, exp_t, sig, rows=kept)
     res["sample"] = {"monitor": "top", "argv": argv, "n_records": n, "groups": len(groups)}
     return res
 
@@ -1348,7 +1501,7 @@ def top_case(case):
 def fraction_case(case):
     rng = random.Random(case["seed"])
     n = pick_n(rng, case["tier"])
-    prof = rng.choice(["int", "posfloat", "mixed", "float"])
+    prof = rng.choice(["int", "posfloat", "mixed", "float", "spfloat"])
     gf = pick_gfields(rng)
     vf = rng.choice([["x"], ["x"], ["x", "y"], ["y", "x"]])
     recs = make_stream(rng, n, {"x": prof, "y": rng.choice(["int", "posfloat"])})
@@ -1395,7 +1548,7 @@ def fraction_case(case):
                     cum[(k, f)] = cum.get((k, f), Fraction(0)) + v
                     tot = sums[(k, f)]
                     if tot == 0:
-                        row.append((f + suffix, ANY))      # x/0
+                        row.append((f + suffix, WEAK))     # x/0
                     else:
                         num = cum[(k, f)] if cflag else v
                         # conditioning: the denominator is a float sum with error ~ eps * sum|x|
@@ -1414,7 +1567,7 @@ def fraction_case(case):
 def histogram_case(case):
     rng = random.Random(case["seed"])
     n = pick_n(rng, case["tier"])
-    prof = rng.choice(["int", "float", "mixed", "posfloat"])
+    prof = rng.choice(["int", "float", "mixed", "posfloat", "spfloat"])
     recs = make_stream(rng, n, {"x": prof, "y": rng.choice(["int", "float"])})
     vf = rng.choice([["x"], ["x", "y"], ["y", "x"]])
     auto = rng.random() < 0.35
@@ -1492,8 +1645,13 @@ def histogram_case(case):
     nck = compare(res, "histogram", detail, got, exp, {"auto": auto},
                   lambda key: "count" if key.endswith("_count") else "bin-edge")
     if nck:
+        check_int_types(res, "histogram", argv, recs, [[(k, e) for k, e in r if e[0] == "I"] for r in exp], {"auto": auto})
+    if nck:
         for f in vf:
-            tot = sum(int(dict(g)[p + f + "_count"]) for g in got)
+            cnts = [dict(g).get(p + f + "_count", "") for g in got]
+            if not all(_INT_RE.match(c) for c in cnts):
+                continue      # already reported cell by cell
+            tot = sum(int(c) for c in cnts)
             inrange = sum(1 for v in vals[f] if lo_ <= v <= hi_)
             if tot != inrange:
                 add_violation(res, {"verb": "histogram", "kind": "conservation", "auto": auto},
@@ -1555,6 +1713,8 @@ def freq_case(case):
                       dict(detail, got=got[:20]))
         return res
     bump(res, "cells_checked", len(got) * (len(gf) + (0 if brief else 1)))
+    if not brief:
+        check_int_types(res, verb, argv, recs, [[(oname, I(c))] for c in counts], sig)
     res["sample"] = {"monitor": "freq", "argv": argv, "n_records": n, "distinct": len(groups)}
     return res
 
@@ -1699,7 +1859,7 @@ def dsl_expectations(texts, is_str, ps, opts):
                 return ANY      # interpolation between ints beyond 2^53: int64 overflow territory (C07)
             ex = [S.parse(t).exact for t in base]
             return N(S.pct_interp(p, ex), float(max(abs(e_) for e_ in ex)))
-        idxs = {S.pct_index(p, n), min(max(int(float(p) * n / 100.0), 0), n - 1)}
+        idxs = S.pct_index_set(ptext, n)
         cands = [base[i] for i in idxs]
         if len(idxs) == 1:
             return elem_expect(cands[0], nums)
@@ -1764,6 +1924,9 @@ DSL_OA_CASES = [
 ]
 
 
+DSL_TYPES_FUNC = ("func types(x) { if (is_map(x)) { return apply(x, func(k,v) { return {k: typeof(v)} }) } "
+                  "elif (is_array(x)) { return apply(x, func(e) { return typeof(e) }) } else { return typeof(x) } }")
+
 DSL_FUNCS = ["count", "distinct_count", "null_count", "mode", "antimode", "minlen", "maxlen", "sort_collection", "percentiles",
              "percentile", "median", "sum", "sum2", "sum3", "sum4", "mean", "variance", "stddev", "meaneb", "skewness", "kurtosis"]
 
@@ -1771,7 +1934,7 @@ DSL_FUNCS = ["count", "distinct_count", "null_count", "mode", "antimode", "minle
 def dsl_case(case):
     rng = random.Random(case["seed"])
     K = case.get("k", 8)
-    prog = ["end {"]
+    prog = [DSL_TYPES_FUNC, "end {"]
     expect = []
     colls = []
     for ci in range(K):
@@ -1816,6 +1979,7 @@ def dsl_case(case):
         exp = dsl_expectations(texts, is_str, ps, opts)
         prog.append(f"  c = {coll};")
         prog.append(f"  @r[{ci}] = {{}};")
+        prog.append(f"  @t[{ci}] = {{}};")
         for fn in DSL_FUNCS:
             if fn not in exp:
                 continue
@@ -1828,9 +1992,10 @@ def dsl_case(case):
             else:
                 call = f"{fn}(c)"
             prog.append(f'  @r[{ci}]["{fn}"] = {call};')
+            prog.append(f'  @t[{ci}]["{fn}"] = types({call});')
         expect.append(exp)
         colls.append({"collection": coll, "ps": ps, "opts": opts})
-    prog.append("  dump @r;")
+    prog.append('  dump {"r": @r, "t": @t};')
     prog.append("}")
     program = "\n".join(prog)
     argv = ["-n", "put", "-q", program]
@@ -1851,9 +2016,23 @@ def dsl_case(case):
         add_violation(res, {"verb": "dsl", "kind": "unparseable"}, "DSL stats: dump output is not JSON", dict(detail, stdout=r.out[:3000]))
         return res
     keys = []
+    typesall = gotall.get("t", {}) if isinstance(gotall, dict) else {}
+    gotall = gotall.get("r", {}) if isinstance(gotall, dict) else {}
     for ci in range(K):
         g = gotall.get(str(ci), {})
+        tg = typesall.get(str(ci), {})
         for fn, cells in expect[ci].items():
+            # "sums/min/max of ints stay ints": every result the recomputation gives as an exact integer must be of type int
+            # (the dump text cannot tell int 6 from float 6)
+            tf_ = dict(flat_got({fn: tg[fn]})) if fn in tg else {}
+            for path, e in cells:
+                if e[0] == "I" and path in tf_:
+                    bump(res, "int_type_cells_checked")
+                    if tf_[path] != "int":
+                        add_violation(res, {"verb": "dsl", "kind": "type", "fn": fn, "cell": fn},
+                                      f"DSL {fn}({colls[ci]['collection'][:120]}): {path} is the exact integer {e[1]} by recomputation but typeof gives {tf_[path]}",
+                                      dict(detail, collection=colls[ci], function=fn, got_types=tg.get(fn), got_value=g.get(fn)))
+                        break
             gf_ = dict(flat_got({fn: g[fn]})) if fn in g else {}
             gl = []
             for path, e in cells:
@@ -1885,18 +2064,14 @@ def dsl_case(case):
 GRID_PS = ["0", "0.1"] + [str(i) for i in range(1, 100)] + ["99.9", "100", "12.5", "37.5", "2.5", "97.5", "33.3", "66.7"]
 
 
-def pgrid_case(case):
-    rng = random.Random(case["seed"])
-    n = case["n"]
-    interp = case["interp"]
-    via = case["via"]
-    prof = rng.choice(["int", "float", "mixed"])
+def grid_values(rng, n, prof=None):
+    """n value texts with pairwise distinct numeric values (so that an off-by-one index is visible), shuffled."""
+    prof = prof or rng.choice(["int", "float", "mixed"])
     vals = set()
     while len(vals) < n:
         vals.add(gen_value(rng, prof) if n <= 60 else str(rng.randint(-10 ** 6, 10 ** 6)))
         if len(vals) < n and n <= 60 and rng.random() < 0.3:
             vals.add(str(rng.randint(-500, 500)))
-    # distinct numeric values so that an off-by-one index is visible
     byval = {}
     for v in vals:
         byval.setdefault(S.parse(v).exact, v)
@@ -1907,6 +2082,15 @@ def pgrid_case(case):
             byval[S.parse(v).exact] = v
             vals.append(v)
     rng.shuffle(vals)
+    return vals
+
+
+def pgrid_case(case):
+    rng = random.Random(case["seed"])
+    n = case["n"]
+    interp = case["interp"]
+    via = case["via"]
+    vals = grid_values(rng, n)
     res = case_result(_h("pgrid", n, interp, via, case["seed"]), n >= 2)
     keys = []
     if via == "stats1":
@@ -1916,7 +2100,11 @@ def pgrid_case(case):
         got, detail = run_mlr(res, argv, recs, "stats1")
         if got is None:
             return res
-        exp = [[(f"x_{a}", acc_expect(a, vals, 0, interp)) for a in accs]]
+        if interp:
+            exp = [[(f"x_{a}", acc_expect(a, vals, 0, interp)) for a in accs]]
+        else:
+            srt = [t for _, t in sorted((S.parse(v).exact, v) for v in vals)]      # numerically distinct by construction
+            exp = [[(f"x_{a}", _pct_pick(srt, a)) for a in accs]]
         nck = compare(res, "stats1", detail, got, exp, {"interp": interp, "grid": True}, lambda k: "percentile")
     else:
         coll = "[" + ", ".join(vals) + "]"
@@ -1950,6 +2138,216 @@ def pgrid_case(case):
 
 
 # ==========================================================================================
+# the non-interpolated index rule through every other user of the percentile code: stats1 -s (running: one run
+# visits every group size 1..n), stats1 -w, merge-fields, percentile()/median()/percentiles() on arrays and maps
+
+ROUTE_ACCS = ["p" + p for p in GRID_PS] + ["median"]
+_IDX_CACHE = {}
+
+
+def _pct_pick(srt, acc):
+    """expected cell for the non-interpolated percentile `acc` over the sorted, numerically distinct texts `srt`"""
+    n = len(srt)
+    ptext = "50" if acc == "median" else acc[1:]
+    key = (ptext, n)
+    if key not in _IDX_CACHE:
+        _IDX_CACHE[key] = sorted(S.pct_index_set(ptext, n))
+    idxs = _IDX_CACHE[key]
+    return T(srt[idxs[0]]) if len(idxs) == 1 else ONEOF([srt[i] for i in idxs])
+
+
+def proutes_case(case):
+    import bisect
+    rng = random.Random(case["seed"])
+    route = case["route"]
+    res = case_result(_h("proutes", route, case["seed"]), True)
+    keys = []
+    sizes = set()
+    cc = lambda k: "percentile"
+    if route in ("stats1-s", "stats1-w"):
+        n = case["n"]
+        w = case.get("w")
+        vals = grid_values(rng, n, "int" if n > 60 else None)
+        recs = [[("id", f"r{i+1}"), ("x", v)] for i, v in enumerate(vals)]
+        argv = ["stats1", "-a", ",".join(ROUTE_ACCS), "-f", "x"] + (["-s"] if route == "stats1-s" else ["-w", str(w)])
+        got, detail = run_mlr(res, argv, recs, "stats1")
+        if got is None:
+            return res
+        summary = [g for g in got if "id" not in dict(g)]
+        got = [g for g in got if "id" in dict(g)]
+        exp = []
+        win = []       # (exact, text) sorted
+        for i, v in enumerate(vals):
+            bisect.insort(win, (S.parse(v).exact, v))
+            if w and i >= w:
+                old = vals[i - w]
+                win.remove((S.parse(old).exact, old))
+            srt = [t for _, t in win]
+            sizes.add(len(srt))
+            exp.append([("id", T(f"r{i+1}")), ("x", T(v))] + [(f"x_{a}", _pct_pick(srt, a)) for a in ROUTE_ACCS])
+        nck = compare(res, "stats1", detail, got, exp, {"opts": "-s" if route == "stats1-s" else "-w", "interp": False, "grid": True}, cc)
+        if route == "stats1-s" and summary:     # whether -s also prints the final statistics is not documented
+            srt = [t for _, t in win]
+            compare(res, "stats1", detail, summary, [[(f"x_{a}", _pct_pick(srt, a)) for a in ROUTE_ACCS]],
+                    {"opts": "-s-final", "interp": False, "grid": True}, cc)
+    elif route == "merge":
+        ns = case["ns"]
+        recs, exp = [], []
+        how = rng.choice(["-f", "-r"])
+        for ri, n in enumerate(ns):
+            vals = grid_values(rng, n, "int" if n > 60 else None)
+            recs.append([("id", f"r{ri+1}")] + [(f"x{j+1}_in", v) for j, v in enumerate(vals)])
+            srt = [t for _, t in sorted((S.parse(v).exact, v) for v in vals)]
+            sizes.add(n)
+            exp.append([("id", T(f"r{ri+1}"))] + [(f"out_{a}", _pct_pick(srt, a)) for a in ROUTE_ACCS])
+        if how == "-f":
+            argv = ["merge-fields", "-a", ",".join(ROUTE_ACCS), "-f", ",".join(f"x{j+1}_in" for j in range(max(ns))), "-o", "out"]
+        else:
+            argv = ["merge-fields", "-a", ",".join(ROUTE_ACCS), "-r", "^x[0-9]+_in$", "-o", "out"]
+        got, detail = run_mlr(res, argv, recs, "merge-fields")
+        if got is None:
+            return res
+        nck = compare(res, "merge-fields", detail, got, exp, {"form": how, "grid": True}, cc)
+    else:   # dsl
+        n = case["n"]
+        vals = grid_values(rng, n, "int" if n > 60 else None)
+        sizes.add(n)
+        as_map = rng.random() < 0.3
+        coll = ("{" + ", ".join(f'"k{i}": {v}' for i, v in enumerate(vals)) + "}") if as_map else ("[" + ", ".join(vals) + "]")
+        # negative literals are computed values (unary minus): compare numerically, not by spelling
+        prog = (f"end {{ c = {coll}; ps = [{', '.join(GRID_PS)}]; @single = {{}}; "
+                "for (i = 1; i <= length(ps); i += 1) { @single[i] = percentile(c, ps[i]) } "
+                "@median = median(c); @arr = percentiles(c, ps, {\"oa\": true}); @srt = percentiles(sort_collection(c), ps, {\"ais\": true, \"oa\": true}); "
+                "dump }")
+        argv = ["-n", "put", "-q", prog]
+        r = R.mlr(argv, stdin="")
+        bump(res, "runs")
+        detail = {"argv": argv, "stdin": ""}
+        if r.verdict == "slow":
+            res["inconc"] += 1
+            return res
+        if not r.ok:
+            add_violation(res, {"verb": "dsl", "kind": "rc", "grid": True}, f"percentile()/median() sweep fails rc={r.rc} {r.err[:200]!r}", detail)
+            return res
+        try:
+            g = parse_json_keep_text(r.out)
+        except ValueError:
+            add_violation(res, {"verb": "dsl", "kind": "unparseable", "grid": True}, "percentile sweep: dump output is not JSON", dict(detail, stdout=r.out[:2000]))
+            return res
+        srt = [t for _, t in sorted((S.parse(v).exact, v) for v in vals)]
+
+        def num_exp(acc):
+            e = _pct_pick(srt, acc)
+            if e[0] == "T":
+                return elem_expect(e[1])
+            vs = {S.parse(t).exact for t in e[1]}
+            return ANY if len(vs) > 1 else elem_expect(e[1][0])
+        nck = 0
+        single = g.get("single", {})
+        got1 = [[(f"p{p}", str(single.get(str(i + 1), "<absent>"))) for i, p in enumerate(GRID_PS)] + [("median", str(g.get("median", "<absent>")))]]
+        exp1 = [[(f"p{p}", num_exp("p" + p)) for p in GRID_PS] + [("median", num_exp("median"))]]
+        nck += compare(res, "dsl", detail, got1, exp1, {"fn": "percentile", "il": False, "grid": True}, lambda k: "median" if k == "median" else "percentile")
+        for name in ("arr", "srt"):
+            arr = g.get(name, [])
+            if not isinstance(arr, list) or len(arr) != len(GRID_PS):
+                add_violation(res, {"verb": "dsl", "kind": "keys", "fn": "percentiles", "grid": True},
+                              f"percentiles(..., {name}) does not return an array of {len(GRID_PS)} values", dict(detail, got=arr))
+                continue
+            nck += compare(res, "dsl", detail, [[(f"p{p}", str(v)) for p, v in zip(GRID_PS, arr)]], [[(f"p{p}", num_exp("p" + p)) for p in GRID_PS]],
+                           {"fn": "percentiles", "il": False, "grid": True, "opt": "oa" if name == "arr" else "ais"}, lambda k: "percentiles")
+    if nck:
+        for n_ in sizes:
+            keys.append(f"proutes/{route}/{n_}")
+            for p in GRID_PS:
+                if S.pct_boundary(Fraction(p), n_):
+                    bump(res, "pn_rounding_boundaries_checked")
+    res["nontrivial_keys"] = keys
+    res["evals"] = max(1, len(sizes))
+    res["stats"]["route_n_seen_" + route] = sorted(sizes)
+    return res
+
+
+# ==========================================================================================
+# null_count on JSON input: "Count number of empty-string/JSON-null instances per field" - the one accumulator whose
+# definition mentions a typed JSON value (everything else about typed JSON input is outside this model)
+
+def nulljson_case(case):
+    rng = random.Random(case["seed"])
+    n = rng.choice([1, 2, 5, 12, 30])
+    recs = []
+    for i in range(n):
+        r = {"id": f"r{i+1}", "g": rng.choice(["a", "b", "c"])}
+        for f in ("x", "y", "z"):
+            q = rng.random()
+            if q < 0.2:
+                continue
+            r[f] = None if q < 0.45 else ("" if q < 0.6 else (rng.randint(-5, 5) if q < 0.9 else "abc"))
+        recs.append(r)
+    stdin = json.dumps(recs)
+    res = case_result(_h("nulljson", case["seed"]), n >= 2)
+    isnull = lambda v: v is None or v == ""
+    # stats1
+    argv = ["--ijson", "--ojson", "stats1", "-a", "null_count", "-f", "x,y", "-g", "g"]
+    r = R.mlr(argv, stdin=stdin)
+    bump(res, "runs")
+    detail = {"argv": argv, "stdin": stdin}
+    if r.verdict == "slow":
+        res["inconc"] += 1
+        return res
+    try:
+        out = json.loads(r.out) if r.ok else None
+    except ValueError:
+        out = None
+    if out is None:
+        add_violation(res, {"verb": "stats1", "kind": "rc", "input": "json-null"}, f"stats1 null_count on JSON input fails: rc={r.rc} {r.err[:200]!r}", detail)
+    else:
+        exp = {}
+        for rec in recs:
+            for f in ("x", "y"):
+                if f in rec:
+                    e = exp.setdefault(rec["g"], {})
+                    e[f + "_null_count"] = e.get(f + "_null_count", 0) + (1 if isnull(rec[f]) else 0)
+        got = {o.get("g"): {k: v for k, v in o.items() if k != "g"} for o in out}
+        got = {g_: c for g_, c in got.items() if c}        # a group in which neither field ever occurs: emitted bare or not at all
+        if got != exp or [o.get("g") for o in out if o.get("g") in got] != list(exp):
+            add_violation(res, {"verb": "stats1", "kind": "value", "cell": "null_count", "input": "json-null"},
+                          f"stats1 -a null_count over JSON input with null / empty values: got {got}, recounted {exp}", dict(detail, got=out, expected=exp))
+        else:
+            bump(res, "cells_checked", sum(len(v) for v in exp.values()))
+    # merge-fields
+    argv = ["--ijson", "--ojson", "merge-fields", "-a", "null_count", "-f", "x,y,z", "-o", "o"]
+    r = R.mlr(argv, stdin=stdin)
+    bump(res, "runs")
+    detail = {"argv": argv, "stdin": stdin}
+    try:
+        out = json.loads(r.out) if r.ok else None
+    except ValueError:
+        out = None
+    if out is None or len(out) != len(recs):
+        add_violation(res, {"verb": "merge-fields", "kind": "rc", "input": "json-null"}, f"merge-fields null_count on JSON input: rc={r.rc} {r.err[:200]!r}", detail)
+    else:
+        for rec, o in zip(recs, out):
+            want = sum(1 for f in ("x", "y", "z") if f in rec and isnull(rec[f]))
+            if o.get("o_null_count") != want:
+                add_violation(res, {"verb": "merge-fields", "kind": "value", "cell": "null_count", "input": "json-null"},
+                              f"merge-fields -a null_count: record {rec} gives {o.get('o_null_count')!r}, recounted {want}", dict(detail, got=o))
+                break
+            bump(res, "cells_checked")
+    # DSL
+    lits = ", ".join("null" if v is None else json.dumps(v) for rec in recs for v in [rec.get("x", 1)])
+    argv = ["-n", "put", "-q", f"end {{ print null_count([{lits}]) }}"]
+    r = R.mlr(argv, stdin="")
+    bump(res, "runs")
+    want = sum(1 for rec in recs if isnull(rec.get("x", 1)))
+    if not r.ok or r.out.strip() != str(want):
+        add_violation(res, {"verb": "dsl", "kind": "value", "fn": "null_count", "cell": "null_count", "input": "json-null"},
+                      f"null_count([{lits[:100]}]) prints {r.out.strip()[:40]!r}, recounted {want}", {"argv": argv, "stdin": "", "expected": want, "got": r.out})
+    else:
+        bump(res, "cells_checked")
+    return res
+
+
+# ==========================================================================================
 # group keys whose texts contain the key joiner: "Groups are formed by the exact texts of the group-by fields"
 
 def collide_case(case):
@@ -1966,28 +2364,42 @@ def collide_case(case):
     if not r.ok:
         add_violation(res, {"verb": name, "kind": "rc"}, f"{name}: rc={r.rc} {r.err[:200]!r}", detail)
         return res
-    out = json.loads(r.out)
-    # the two groups are (a1,b1) x2 and (a2,b2) x1: every verb below must show two groups
-    seen = {(str(o.get("a")), str(o.get("b"))) for o in out}
-    ok = (a1, b1) in seen and (a2, b2) in seen
-    if ok and name in ("count", "count-distinct", "uniq -c", "most-frequent"):
-        ok = sorted(int(o.get("count", -1)) for o in out) == [1, 2]
-    if ok and name == "stats1":
-        ok = sorted(o.get("x_sum") for o in out) == [2, 5]
-    if ok and name == "count-similar":
-        ok = sorted(o.get("count") for o in out) == [1, 2, 2]
-    if ok and name == "step":
-        ok = [o.get("x_rsum") for o in sorted(out, key=lambda o: o["id"])] == [1, 2, 5]
-    if ok and name == "fraction":
-        ok = [round(o.get("x_fraction"), 6) for o in sorted(out, key=lambda o: o["id"])] == [0.2, 1, 0.8]
-    if ok and name == "top":
-        ok = sorted(o.get("x_top") for o in out) == [2, 4]
-    if not ok:
+    try:
+        out = json.loads(r.out)
+        # the two groups are (a1,b1) x2 and (a2,b2) x1: every verb below must show two groups
+        seen = {(str(o.get("a")), str(o.get("b"))) for o in out}
+        byid = lambda key: [o.get(key) for o in sorted(out, key=lambda o: o["id"])]
+        r6 = lambda xs: [round(x, 6) if isinstance(x, (int, float)) else x for x in xs]
+        if name in ("count", "count-distinct", "uniq -c", "most-frequent"):
+            obs, good, merged = sorted(o.get("count", -1) for o in out), [1, 2], [3]
+        elif name == "stats1":
+            obs, good, merged = sorted(o.get("x_sum", -1) for o in out), [2, 5], [7]
+        elif name == "count-similar":
+            obs, good, merged = sorted(o.get("count", -1) for o in out), [1, 2, 2], [3, 3, 3]
+        elif name == "step":
+            obs, good, merged = byid("x_rsum"), [1, 2, 5], [1, 3, 7]
+        elif name == "fraction":
+            obs, good, merged = r6(byid("x_fraction")), [0.2, 1, 0.8], r6([1 / 7, 2 / 7, 4 / 7])
+        elif name == "top":
+            obs, good, merged = sorted(o.get("x_top", -1) for o in out), [2, 4], [4]
+        else:
+            raise AssertionError(name)
+    except (ValueError, KeyError, TypeError, AttributeError) as ex:
+        add_violation(res, {"verb": name, "kind": "unparseable", "joiner": case["joiner"]}, f"{name}: output cannot be interpreted ({ex})",
+                      dict(detail, stdout=r.out[:2000]))
+        return res
+    both = (a1, b1) in seen and (a2, b2) in seen
+    if both and obs == good:
+        bump(res, "cells_checked")
+    elif obs == merged:
+        # exactly the result of treating the two different groups as ONE group: the collision defect
         add_violation(res, {"verb": name, "kind": "group-collision", "joiner": case["joiner"]},
                       f"{name}: records with (a,b) = ({a1!r},{b1!r}) and ({a2!r},{b2!r}) are put in one group",
                       dict(detail, got=out))
     else:
-        bump(res, "cells_checked")
+        add_violation(res, {"verb": name, "kind": "value", "cell": "two-group-result", "joiner": case["joiner"]},
+                      f"{name}: two groups of sizes 2 and 1 expected ({good}), got {obs} - neither the correct result nor the result of "
+                      f"merging the two groups", dict(detail, got=out))
     return res
 
 
@@ -2175,38 +2587,47 @@ def dispatch(case):
 
 
 ASSUMPTIONS = [
-    "Value spellings are limited to decimal ints within int64, 0x hex ints, and fixed-point decimals; anything else the oracle's parser "
-    "does not cover is never generated (number grammar is C06's subject).",
+    "Value spellings are limited to decimal ints within int64, 0x hex ints, fixed-point decimals and (profile spfloat) floats with a "
+    "leading/trailing point or a decimal exponent (5. .5 1e3 1.5E-2); anything else the oracle's parser does not cover is never generated "
+    "(number grammar is C06's subject). Empty or text values in the value field of step/top/fraction/histogram are not generated "
+    "(fraction and histogram document numeric input and stop with an error; step and top say nothing).",
     "Conventions not fixed by the help text are pinned from the worked examples in `mlr help function ...` and the recorded outputs in "
     "reference-verbs.md (both replayed by this check: monitors docex, docreplay): var = sum (x-mu)^2/(n-1); stddev = sqrt(var); "
     "meaneb = sqrt(var/n); mad = mean absolute deviation sum|x-mu|/n ('Compute mean absolute deviation'); kurtosis = m4/m2^2 - 3 with "
     "population moments (kurtosis([4,5,9,10,11]) is -1.6703688); skewness = m3/s^3 with the SAMPLE standard deviation "
     "(skewness([4,5,9,10,11]) is -0.2097285; summary page of data/medium); var/stddev/meaneb/skewness/kurtosis of fewer than two values are empty.",
     "Percentiles: non-interpolated = sorted[int(p/100*n)] clamped to [0, n-1], interpolated (-i / interpolate_linearly) = R type 7, as in "
-    "`mlr stats1 --help` and the worked examples of `mlr help function percentiles`; when p*n/100 is an exact integer the float expression "
-    "int(p*n/100.0) is accepted as well (identical in all but float-noisy cases).",
+    "`mlr stats1 --help` and the worked examples of `mlr help function percentiles`/`median`. The index is recomputed in exact rational "
+    "arithmetic, for p as the decimal written and for p as the IEEE double nearest to it (they differ only for p such as 66.6 that no "
+    "double represents, when p*n/100 is an integer); nothing in the reference depends on the order of floating-point operations. "
+    "p outside 0..100 is not exercised (`p{n} for n in 0..100`).",
     "Float results are compared with |got-ref| <= 1e-9*|ref| + 1e-12*scale, scale being the magnitude of the raw power sums the statistic "
-    "is computed from (conditioning); references are exact rationals. Moments and interpolated percentiles of ints beyond 2^53, and any "
-    "statistic whose definition divides by zero (zero variance, zero group sum, ratio to 0), are declined.",
+    "is computed from (conditioning); references are exact rationals. Moments and interpolated percentiles of ints beyond 2^53, numeric "
+    "accumulators over text, accumulators over no data, and any statistic whose definition divides by zero (zero variance, zero group sum, "
+    "ratio to 0) have no modelled value: such a cell must still be a number (NaN/Inf included), empty or (error) - counted as "
+    "cells_checked_weakly.",
     "stats1/merge-fields skip empty values for every accumulator except null_count ('count instances of fields' vs 'Count number of "
     "empty-string ... instances'); an accumulator over no data at all is declined except count/distinct_count/null_count; numeric "
     "accumulators are only checked on all-numeric data ('count and mode allow text input; the rest require numeric input'); min/max/"
     "percentiles on mixed data follow 'numbers are less than strings' and sorting.md (numeric < void < string).",
     "int sums follow reference-main-arithmetic.md: int + int stays int unless it leaves int64, then float arithmetic from there on "
-    "(the running sum is simulated in that order).",
+    "(the running sum is simulated in that order; merge-fields -f: in record order or in -f order, the documentation does not say which).",
     "Field order inside an output record is not part of the property where the documentation does not fix it (stats1 emits value fields "
     "in order of first appearance, regex group-by fields in global first-appearance order): compared order-insensitively there.",
     "Records lacking a group-by field take part in no accumulation; whether a verb drops them or passes them through unchanged is not "
-    "documented (count-similar and stats1 -w drop them, step and fraction pass them): both accepted, but they must be unchanged.",
-    "top: with several -f fields only records having ALL of them (and all -g fields) are ranked, groups in order of first contribution - "
-    "pinned by the repository's regression case `mlr top -f x,y -n 2 test/input/abixy-het`, the help text is silent (this is stricter "
-    "than the property's 'left out of that accumulation only'; reported as a judgement call, not as a finding). Rows beyond the number "
-    "of available values (padding with empty) are ignored. Ties may come in any order (top -a, most/least-frequent, equal-valued percentiles).",
-    "step: steppers run over the records of the group that have the value field; shift/shift_lag/shift_lead take the value of the record "
-    "n back/forward literally ('from the previous record, if any' - empty if that record lacks the field); delta is 0 and ratio is 1 when "
-    "there is no such record (delta: doc example; ratio: regression case verb-step/0025); with n >= 2 and a record lacking the field inside "
-    "the look-back range, and for slwin windows containing such a record, the oracle declines. Output name of slwin_m_n is <field>_<m>_<n> "
-    "(regression cases). With forward-looking steppers records are matched by id (emission order across groups is not documented).",
+    "documented (count-similar and stats1 -s drop them, step and fraction pass them): both accepted, but they must be unchanged. "
+    "Exception: stats1 -w documents 'One output record is emitted per input record', so there they must be passed through (C10-F11).",
+    "top: a record is ranked if it has every -g and every -f field; with several -f fields, streams in which some record has some but "
+    "not all of them are declined (skipped): the documentation does not say whether such a record is ranked for the fields it has. "
+    "Groups in order of first contribution. Rows beyond the number of available values (padding with empty) are ignored. Ties may come "
+    "in any order (top -a, most/least-frequent, equal-valued percentiles).",
+    "step: counter, rsum, rprod, ewma, from-first run over the records of the group that have the value field (a record lacking it gets "
+    "no stepper field for it). shift/shift_lag/shift_lead/delta/ratio 'n records back/forward': the help does not say whether records of "
+    "the group lacking the field count as positions; where the literal reading (record i-n of the group) and the field-sequence reading "
+    "(n-th previous record having the field) name the same record the cell is judged strictly, otherwise shift* must equal one of the "
+    "two readings and delta/ratio are declined. No such record: shift empty, delta 0 (doc example), ratio 1 (regression case verb-step/0025). "
+    "slwin windows containing a record without the field are declined. Output name of slwin_m_n is <field>_<m>_<n> (regression cases). "
+    "With forward-looking steppers records are matched by id (emission order across groups is not documented).",
     "histogram: a value within 1e-9 (relative to the bin width) of a bin edge may be counted on either side (float division).",
     "fill-down: without -a a field is missing if absent or empty and the remembered value is the last non-empty one; with -a|--only-if-absent "
     "only absent counts and the remembered value is the last present one (possibly empty); --all = every field of the current record.",
@@ -2224,8 +2645,12 @@ def run(chk):
     chk.rule = ("Per verb family a fixed number of seeded cases (seed = VERIF_SEED/monitor/index): each case draws a stream of 0-300 records "
                 "(id, group fields a/b from pools with 1, 1.0, 1.00, empty, 'pan ' etc., value fields with 20 % missing, ints/floats/mixed/"
                 "empties/strings/hex/big ints, ties), an option set for the verb (every documented option that changes values), runs mlr once and "
-                "recomputes every output cell. Plus: the full (p, n) percentile grid (p in 0, 0.1, 1..99, 99.9, 100 and 6 fractional; n per tier) "
-                "through stats1 and percentiles(), both modes; a slwin_m_n x n grid; group keys containing the key joiner; the worked examples of "
+                "recomputes every output cell (a second run of the same command followed by typeof() observes that exact-integer cells are ints); "
+                "12 % of the streams are >= 13 fields wide, 3 % have 499..1003 records, 4 of 9 runs use --records-per-batch 1/2/7/100. "
+                "Plus: the full (p, n) percentile grid (p in 0, 0.1, 1..99, 99.9, 100 and 6 fractional; non-interpolated: every n in 1..120, "
+                "multiples of 10 to 300 and a sample [thorough: every n in 1..300, 499..501, 1000, 1003]; interpolated: a smaller n set) "
+                "through stats1 and percentiles(); the same p grid through stats1 -s (one run visits every group size 1..300), stats1 -w, "
+                "merge-fields, percentile(), median(), percentiles() with oa / ais; a slwin_m_n x n grid; group keys containing the key joiner; the worked examples of "
                 "`mlr help function <stats fn>`; the recorded executions in reference-verbs.md for the 13 verbs. Non-trivial = >= 2 groups, >= 1 "
                 "record left out for a missing group-by/value field, and >= 1 tie or mixed int/float column (grid/DSL/doc sub-cases: one key per "
                 "checked (p, n, mode, route) cell, per (collection, function), per doc block). Distinct = by case seed / cell key.")
@@ -2236,12 +2661,37 @@ def run(chk):
         cases = [{"seed": f"{chk.seed}/{name}/{i}", "tier": chk.tier, "mon": name, "i": i} for i in range(n)]
         chk.pmap(dispatch, cases, label=name)
     if not only or "pgrid" in only:
-        ns = (list(range(1, 14)) + [20, 25, 40]) if chk.quick() else (list(range(1, 41)) + [50, 64, 100, 101, 200, 1000])
+        # Non-interpolated rule: every group size 1..120 and, above that, the sizes with the most rounding boundaries
+        # (p*n/100 is an integer for many p when n is a multiple of 10) plus a seeded sample; thorough: every n in 1..300
+        # and the sizes around the 500-record batch.  Interpolated: a smaller set (the formula has no truncation step).
+        rs = chk.rng("pgrid-n")
+        if chk.quick():
+            ns_plain = sorted(set(range(1, 121)) | set(range(130, 301, 10)) | set(rs.sample(range(121, 300), 8)))
+            ns_interp = list(range(1, 14)) + [20, 25, 40, 50, 100, 101]
+        else:
+            ns_plain = list(range(1, 301)) + [499, 500, 501, 1000, 1003]
+            ns_interp = list(range(1, 41)) + [50, 64, 100, 101, 200, 1000]
         cases = [{"seed": f"{chk.seed}/pgrid/{n}/{via}/{int(ip)}", "n": n, "via": via, "interp": ip}
-                 for n in ns for via in ("stats1", "dsl") for ip in (False, True)]
+                 for ip, ns in ((False, ns_plain), (True, ns_interp)) for n in ns for via in ("stats1", "dsl")]
         chk.pmap(pgrid_case, cases, label="pgrid")
-        chk.extra["percentile_grid"] = {"p_values": len(GRID_PS), "n_values": ns, "routes": ["stats1 -a pNN", "percentiles()"],
-                                        "modes": ["non-interpolated", "interpolated"]}
+        chk.extra["percentile_grid"] = {"p_values": len(GRID_PS), "n_values_non_interpolated": ns_plain, "n_values_interpolated": ns_interp,
+                                        "routes": ["stats1 -a pNN", "percentiles()"]}
+    if not only or "proutes" in only:
+        rs = chk.rng("proutes-n")
+        many = [10, 20, 25, 30, 40, 50, 60, 70, 75, 80, 90, 100, 110, 120, 150, 200, 250, 300]   # sizes with many boundaries p*n/100 in Z
+        cases = []
+        for i, n in enumerate([300, 130] if chk.quick() else [300, 300, 200, 130, 64, 501]):
+            cases.append({"seed": f"{chk.seed}/proutes/s/{i}", "route": "stats1-s", "n": n})
+        ws = (many + rs.sample(range(2, 130), 6)) if chk.quick() else sorted(set(range(1, 131)) | set(many))
+        for w in ws:
+            cases.append({"seed": f"{chk.seed}/proutes/w/{w}", "route": "stats1-w", "n": w + 4, "w": w})
+        all_n = sorted(set(range(1, 121)) | set(many) | set(rs.sample(range(121, 300), 6))) if chk.quick() else list(range(1, 301))
+        for j in range(6):
+            cases.append({"seed": f"{chk.seed}/proutes/m/{j}", "route": "merge", "ns": all_n[j::6]})
+        dn = sorted(set(range(1, 31)) | set(many) | set(rs.sample(range(31, 300), 12))) if chk.quick() else list(range(1, 301)) + [500, 1003]
+        for n in dn:
+            cases.append({"seed": f"{chk.seed}/proutes/d/{n}", "route": "dsl", "n": n})
+        chk.pmap(proutes_case, cases, label="percentile routes")
     if not only or "slwin" in only:
         ws = [(m, k) for m in range(0, 4) for k in range(0, 4)] if chk.quick() else [(m, k) for m in range(0, 7) for k in range(0, 7)]
         nn = [0, 1, 2, 5, 9] if chk.quick() else list(range(0, 31))
@@ -2254,6 +2704,8 @@ def run(chk):
         ws = [1, 2, 3, 12] if chk.quick() else list(range(1, 13))
         cases = [{"seed": f"{chk.seed}/wgrid/{w}/{i}", "tier": chk.tier, "w": w} for w in ws for i in range(chk.pick(2, 12))]
         chk.pmap(stats1w_case, cases, label="stats1 -w grid")
+    if not only or "nulljson" in only:
+        chk.pmap(nulljson_case, [{"seed": f"{chk.seed}/nulljson/{i}"} for i in range(chk.pick(12, 120))], label="null_count on JSON null")
     if not only or "collide" in only:
         chk.pmap(collide_case, collide_cases(chk), label="collide")
     if not only or "dsl" in only:
@@ -2270,8 +2722,14 @@ def run(chk):
     chk.extra["dsl_functions_checked"] = sorted(st.get("dsl_functions_seen", []))
     chk.extra["cells_checked"] = st.get("cells_checked", 0)
     chk.extra["cells_declined"] = st.get("cells_declined", 0)
+    chk.extra["cells_checked_weakly"] = st.get("cells_checked_weakly", 0)
+    chk.extra["int_type_cells_checked"] = st.get("int_type_cells_checked", 0)
+    chk.extra["runs_with_small_batches"] = st.get("runs_with_small_batches", 0)
     chk.extra["mlr_runs"] = st.get("runs", 0)
     chk.extra["doc_blocks_reproduced"] = st.get("doc_blocks_reproduced", 0)
     chk.extra["doc_examples_reproduced"] = st.get("doc_examples_reproduced", 0)
     chk.extra["pn_rounding_boundaries_checked"] = st.get("pn_rounding_boundaries_checked", 0)
-    chk.extra["not_modelled"] = ["stats2", "bootstrap-ci", "summary", "sparkline", "bar", "histogram -s", "non-DKVP input formats"]
+    chk.extra["percentile_route_sizes"] = {k[len("route_n_seen_"):]: sorted(v) for k, v in st.items() if k.startswith("route_n_seen_")}
+    chk.extra["not_modelled"] = ["stats2", "bootstrap-ci", "summary", "sparkline", "bar", "histogram -s", "typed JSON input other than null_count on null",
+                                 "empty/text values in the value field of step, top, fraction, histogram", "percentiles outside 0..100",
+                                 "merge-fields -c with a collapse substring occurring twice in a name (help does not say which occurrence is removed)"]
